@@ -342,6 +342,13 @@ def visit(visitor, obj, attr, cff):
 # ItemVariationStore
 
 
+@ScalerVisitor.register(ttLib.getTableClass("avar"))
+def visit(visitor, avar):
+    # The avar (version 2) variation store holds deltas of normalized
+    # coordinates, not of design units.
+    return False
+
+
 @ScalerVisitor.register(otTables.VarData)
 def visit(visitor, varData):
     for item in varData.Item:
